@@ -63,8 +63,9 @@ def run(ctx: Ctx) -> None:
             if ch and ch[0] == "self" and len(ch) >= 3 and not (ch[1] == "state" and ch[2] == "location"):
                 ctx.ob("R12.1", f"parser:CxxParser.{fname}|nested store {'.'.join(ch)}", False, msg=f"`{short(st)}` mutates an object reachable from the parser", node=st, mod=mod)
     # current_namespace writers
-    # (the push function may set it as well, from the namespace block it pushes: `self.current_namespace = <state>.namespace`)
-    cn = sorted({f for f, st_ in seen.get("current_namespace", []) if not (f == "_setup_state" and isinstance(st_, ast.Assign) and isinstance(st_.value, ast.Attribute) and st_.value.attr == "namespace")})
+    # (the push function and the other block openers may set it as well, from the namespace block being pushed:
+    # `self.current_namespace = <state>.namespace`, which the kind analysis restricts to namespace blocks)
+    cn = sorted({f for f, st_ in seen.get("current_namespace", []) if not (f in ("_setup_state", "_parse_extern", "_parse_class_decl") and isinstance(st_, ast.Assign) and isinstance(st_.value, ast.Attribute) and st_.value.attr == "namespace")})
     ctx.ob("R12.1", "parser:CxxParser|current_namespace writers", set(cn) <= {"_parse_namespace", "_pop_state"}, msg=f"current_namespace is written by {cn}", node=pm.cls, mod=mod, nontrivial=False)
 
     # ---------------------------------------------------------------- R12.2
